@@ -53,6 +53,147 @@ Proof.
   now apply bu_join_comm.
 Qed.
 
+(* associativity of Join in the specification: list for list *)
+Lemma join_lists_assoc A B D : all_wf A -> all_wf B -> all_wf D ->
+  join_lists (join_lists A B) D = join_lists A (join_lists B D).
+Proof.
+  intros WA WB WD.
+  set (Lf := fun x y z : sol =>
+         if compatible x y then (if compatible (merge x y) z then [merge (merge x y) z] else []) else []).
+  set (Rf := fun x y z : sol =>
+         if compatible y z then (if compatible x (merge y z) then [merge x (merge y z)] else []) else []).
+  transitivity (flat_map (fun x => flat_map (fun y => flat_map (fun z => Lf x y z) D) B) A).
+  - unfold join_lists. rewrite flat_map_flat_map. apply flat_map_ext. intros x.
+    rewrite flat_map_flat_map. apply flat_map_ext. intros y. unfold Lf.
+    destruct (compatible x y); cbn [flat_map]; [now rewrite app_nil_r|now rewrite flat_map_nil].
+  - transitivity (flat_map (fun x => flat_map (fun y => flat_map (fun z => Rf x y z) D) B) A).
+    + apply flat_map_ext_in. intros x Ix. apply flat_map_ext_in. intros y Iy. apply flat_map_ext_in. intros z Iz.
+      assert (Wx := WA x Ix). assert (Wy := WB y Iy). assert (Wz := WD z Iz). unfold Lf, Rf.
+      assert (Wxy : sol_wf (merge x y) = true) by (apply wf_merge, Wx).
+      assert (Wyz : sol_wf (merge y z) = true) by (apply wf_merge, Wy).
+      destruct (compatible x y) eqn:Cxy, (compatible y z) eqn:Cyz.
+      * pose proof (proj1 (compatible_spec _ _ Wx) Cxy) as Pxy.
+        pose proof (proj1 (compatible_spec _ _ Wy) Cyz) as Pyz.
+        apply (if_compat_ext (merge x y) z x (merge y z)); auto.
+        -- split; intros H.
+           ++ apply compat_merge_iff; auto. apply compat_prop_sym in H.
+              apply (compat_merge_iff z x y Wx Wy Pxy) in H. split; [exact Pxy|apply compat_prop_sym, H].
+           ++ apply compat_prop_sym. apply compat_merge_iff; auto.
+              apply (compat_merge_iff x y z Wy Wz Pyz) in H. split; apply compat_prop_sym; [apply H|exact Pyz].
+        -- intros _. f_equal. now apply merge_assoc.
+      * pose proof (proj1 (compatible_spec _ _ Wx) Cxy) as Pxy.
+        destruct (compatible (merge x y) z) eqn:C3; [|reflexivity].
+        apply (compatible_spec _ _ Wxy) in C3. apply compat_prop_sym in C3.
+        apply (compat_merge_iff z x y Wx Wy Pxy) in C3. destruct C3 as [_ C3].
+        apply compat_prop_sym in C3. apply (compatible_spec _ _ Wy) in C3. congruence.
+      * pose proof (proj1 (compatible_spec _ _ Wy) Cyz) as Pyz.
+        destruct (compatible x (merge y z)) eqn:C3; [|reflexivity].
+        apply (compatible_spec _ _ Wx) in C3. apply (compat_merge_iff x y z Wy Wz Pyz) in C3.
+        destruct C3 as [C3 _]. apply (compatible_spec _ _ Wx) in C3. congruence.
+      * reflexivity.
+    + unfold join_lists. apply flat_map_ext. intros x. rewrite flat_map_flat_map.
+      apply flat_map_ext. intros y. rewrite flat_map_flat_map. apply flat_map_ext. intros z. unfold Rf.
+      destruct (compatible y z); cbn [flat_map]; [now rewrite app_nil_r|reflexivity].
+Qed.
+
+Lemma bu_join_assoc ds g l1 l2 l3 l4 a b d : shape a = true -> shape b = true -> shape d = true ->
+  eval_bu ds g (Join l1 (Join l2 a b) d) = eval_bu ds g (Join l3 a (Join l4 b d)).
+Proof. intros Sa Sb Sd. cbn. apply join_lists_assoc; now apply bu_wf. Qed.
+
+(* ... and in the model wherever both bracketings lie in the proved fragment *)
+Lemma td_join_assoc ds (Gn : graphs_nodup ds) (Dn : ds_nb ds) pushed l1 l2 l3 l4 a b d g c :
+  frag (map fst (ds_named ds)) pushed (Join l1 (Join l2 a b) d) = true ->
+  frag (map fst (ds_named ds)) pushed (Join l3 a (Join l4 b d)) = true ->
+  gok g -> sol_wf c = true -> dom_in c pushed ->
+  Permutation (eval_td ds g c (Join l1 (Join l2 a b) d)) (eval_td ds g c (Join l3 a (Join l4 b d))).
+Proof.
+  intros F1 F2 Ng Wc Dc.
+  rewrite (pushdown ds Gn Dn _ _ F1 g c Ng Wc Dc), (pushdown ds Gn Dn _ _ F2 g c Ng Wc Dc).
+  pose proof (frag_shape _ _ _ F1) as S1. pose proof (frag_shape _ _ _ F2) as S2. cbn in S1, S2.
+  apply andb_true_iff in S1 as [Sab Sd]. apply andb_true_iff in Sab as [Sa Sb].
+  rewrite (bu_join_assoc ds g l1 l2 l3 l4 a b d Sa Sb Sd). reflexivity.
+Qed.
+
+(* evaluating under a pre-bound context = joining with a one-row VALUES table
+   (the "start context" half of initBindings; that initBindings are also never
+   forgotten is not part of the model) *)
+Lemma td_prebound_values ds (Gn : graphs_nodup ds) (Dn : ds_nb ds) pushed l p g c :
+  frag (map fst (ds_named ds)) pushed p = true -> gok g -> sol_wf c = true -> dom_in c pushed ->
+  Permutation (eval_td ds g c p) (eval_bu ds g (Join l p (Values [c]))).
+Proof.
+  intros F Ng Wc Dc. rewrite (pushdown ds Gn Dn _ _ F g c Ng Wc Dc).
+  pose proof (frag_shape _ _ _ F) as S. cbn [eval_bu]. apply Permutation_refl'.
+  unfold join_ctx, join_lists. apply flat_map_ext_in. intros m I. assert (Wm := bu_wf ds p S g m I).
+  cbn [flat_map]. rewrite app_nil_r. destruct (compatible m c) eqn:C; [|reflexivity].
+  f_equal. apply merge_comm; auto. now rewrite compatible_sym by auto.
+Qed.
+
+(* FILTER placement inside a group: a filter over variables that the left
+   operand certainly binds can be applied before or after the join - in the
+   specification, and in the model wherever both forms lie in the fragment *)
+Lemma filter_flat_map {A B} (f : B -> bool) (g : A -> list B) l :
+  filter f (flat_map g l) = flat_map (fun x => filter f (g x)) l.
+Proof. induction l as [|a l IH]; cbn; [reflexivity|]. now rewrite filter_app, IH. Qed.
+
+Lemma bu_filter_join ds (Gn : graphs_nodup ds) (Dn : ds_nb ds) g n1 fv1 n2 fv2 l l' e a b :
+  shape a = true -> shape b = true -> gok g ->
+  efrag (map fst (ds_named ds)) (maybe a ++ maybe b) e = true ->
+  nonempty (inter (cmp_vars_e e) (bool_vars a ++ bool_vars b)) = false ->
+  subsetv (evars e) (cert a) = true ->
+  eval_bu ds g (Filter n1 fv1 e (Join l a b)) = eval_bu ds g (Join l' (Filter n2 fv2 e a) b).
+Proof.
+  intros Sa Sb Gk Ee Ty Ce. rewrite subsetv_in in Ce. cbn [eval_bu]. unfold join_lists.
+  set (A := eval_bu ds g a). set (B := eval_bu ds g b).
+  assert (WA : all_wf A) by (apply bu_wf, Sa). assert (WB : all_wf B) by (apply bu_wf, Sb).
+  assert (K : forall x y, In x A -> In y B -> compatible x y = true ->
+              ebv (expr_bu ds g (merge x y) e) = ebv (expr_bu ds g x e)).
+  { intros x y Ix Iy C. assert (Wx := WA x Ix). assert (Wy := WB y Iy). f_equal.
+    assert (Wxy : sol_wf (merge x y) = true) by (apply wf_merge, Wx).
+    assert (L : forall v, In v (evars e) -> lookup v (merge x y) = lookup v x).
+    { intros v Iv. rewrite lookup_merge by exact Wy.
+      pose proof (cert_sound ds a Sa g x v Ix (Ce v Iv)) as Nx.
+      destruct (lookup v y) as [u|] eqn:Ly; [|reflexivity].
+      destruct (lookup v x) as [t|] eqn:Lx; [|congruence].
+      f_equal. symmetry. apply (proj1 (compatible_spec _ _ Wx) C v t u Lx Ly). }
+    assert (Tx : typed_sol (bool_vars a ++ bool_vars b) x).
+    { eapply typed_sol_mono; [|apply (bu_typed ds a Sa Dn g x (proj2 Gk) Ix)]. intros; apply in_or_app; now left. }
+    assert (Txy : typed_sol (bool_vars a ++ bool_vars b) (merge x y)).
+    { intros w u Lw. rewrite lookup_merge in Lw by exact Wy. destruct (lookup w y) eqn:Ly.
+      - injection Lw as <-. destruct (bu_typed ds b Sb Dn g y (proj2 Gk) Iy w _ Ly); [now left|right; apply in_or_app; now right].
+      - now apply Tx. }
+    assert (TyOf : forall m, typed_sol (bool_vars a ++ bool_vars b) m ->
+                   forall v t, In v (cmp_vars_e e) -> lookup v m = Some t -> nb t = true).
+    { intros m Tm v t Iv Lm. destruct (Tm v t Lm) as [Hn|Hb]; [exact Hn|]. exfalso. eapply inter_empty_elim; eauto. }
+    assert (D : dom_in (merge x y) (maybe a ++ maybe b)).
+    { intros v Hv. rewrite lookup_merge in Hv by exact Wy. apply in_or_app.
+      destruct (lookup v y) eqn:Ly; [right; apply (maybe_sound ds b Sb g y v Iy); congruence|].
+      left. apply (maybe_sound ds a Sa g x v Ix Hv). }
+    rewrite <- (expr_agree ds Gn Dn e _ Ee g (merge x y) (merge x y) (merge x y) Gk Wxy Wxy D (fun v _ => eq_refl) (TyOf _ Txy)).
+    apply (expr_agree ds Gn Dn e _ Ee g (merge x y) (merge x y) x Gk Wxy Wx D L (TyOf _ Tx)). }
+  rewrite filter_flat_map, flat_map_filter. apply flat_map_ext_in. intros x Ix.
+  rewrite filter_flat_map.
+  destruct (ebv (expr_bu ds g x e)) eqn:Fx.
+  - apply flat_map_ext_in. intros y Iy. destruct (compatible x y) eqn:C; [|reflexivity].
+    cbn [filter]. now rewrite (K x y Ix Iy C), Fx.
+  - apply flat_map_all_nil. intros y Iy. destruct (compatible x y) eqn:C; [|reflexivity].
+    cbn [filter]. now rewrite (K x y Ix Iy C), Fx.
+Qed.
+
+Lemma td_filter_join ds (Gn : graphs_nodup ds) (Dn : ds_nb ds) pushed g c n1 fv1 n2 fv2 l l' e a b :
+  frag (map fst (ds_named ds)) pushed (Filter n1 fv1 e (Join l a b)) = true ->
+  frag (map fst (ds_named ds)) pushed (Join l' (Filter n2 fv2 e a) b) = true ->
+  efrag (map fst (ds_named ds)) (maybe a ++ maybe b) e = true ->
+  nonempty (inter (cmp_vars_e e) (bool_vars a ++ bool_vars b)) = false ->
+  subsetv (evars e) (cert a) = true ->
+  gok g -> sol_wf c = true -> dom_in c pushed ->
+  Permutation (eval_td ds g c (Filter n1 fv1 e (Join l a b))) (eval_td ds g c (Join l' (Filter n2 fv2 e a) b)).
+Proof.
+  intros F1 F2 Ee Ty Ce Ng Wc Dc.
+  rewrite (pushdown ds Gn Dn _ _ F1 g c Ng Wc Dc), (pushdown ds Gn Dn _ _ F2 g c Ng Wc Dc).
+  pose proof (frag_shape _ _ _ F1) as S1. cbn in S1. apply andb_true_iff in S1 as [Sa Sb].
+  rewrite (bu_filter_join ds Gn Dn g n1 fv1 n2 fv2 l l' e a b Sa Sb Ng Ee Ty Ce). reflexivity.
+Qed.
+
 (* reading of the checker *)
 Lemma group_ok_iff l : group_ok l = true <-> (forall x r, l = x :: r -> forall y, In y r -> obs_eqb x y = true).
 Proof.
